@@ -616,6 +616,104 @@ fn run_keys(r: &mut Rng, n: u64) {
     }
 }
 
+
+// ---- C01 / C03 / C18: whole-map round trip for regular, index and Hermes maps ----
+/// observation of a decoded map, independent of ids: views deduplicated by the harness itself
+fn view_of(t: &sourcemap::Token) -> String {
+    if t.has_source() { format!("{}:{}:{}:{}:{}:{}:{}", t.get_dst_line(), t.get_dst_col(), opt_hex(t.get_source()), t.get_src_line(), t.get_src_col(), opt_hex(t.get_name()), t.is_range() as u8) }
+    else { format!("{}:{}:-:{}", t.get_dst_line(), t.get_dst_col(), t.is_range() as u8) }
+}
+fn sm_full_obs(sm: &sourcemap::SourceMap) -> String {
+    let mut views: Vec<String> = vec![]; for t in sm.tokens() { let v = view_of(&t); if views.last() != Some(&v) { views.push(v); } }
+    let nsrc = sm.get_source_count();
+    format!("R[file={} root={} sources={} names={} contents={} ignore={} dbg={} tokens={}]", opt_hex(sm.get_file()), opt_hex(sm.get_source_root().filter(|r| !r.is_empty())),
+        (0..nsrc).map(|i| opt_hex(sm.get_source(i))).collect::<Vec<_>>().join(","), sm.names().map(|n| format!("={}", hex(n.as_bytes()))).collect::<Vec<_>>().join(","),
+        (0..nsrc).map(|i| opt_hex(sm.get_source_contents(i))).collect::<Vec<_>>().join(","), sm.ignore_list().map(|x| x.to_string()).collect::<Vec<_>>().join(","),
+        sm.get_debug_id().map(|d| d.to_string()).unwrap_or("-".into()), views.join(";"))
+}
+fn dm_full_obs(dm: &sourcemap::DecodedMap) -> String {
+    match dm {
+        sourcemap::DecodedMap::Regular(sm) => sm_full_obs(sm),
+        sourcemap::DecodedMap::Hermes(h) => {
+            let scopes: Vec<String> = { let mut v = vec![]; let mut last = None; for t in h.tokens() { let w = view_of(&t); if last.as_ref() != Some(&w) { v.push(opt_hex(h.get_scope_for_token(t))); } last = Some(w); } v };
+            let fns: Vec<String> = (0..40u32).step_by(3).map(|o| opt_hex(h.get_original_function_name(o))).collect();
+            format!("H[{} scopes={} fns={}]", sm_full_obs(h), scopes.join(","), fns.join(",")) }
+        sourcemap::DecodedMap::Index(ix) => format!("I[file={} sections={}]", opt_hex(ix.get_file()),
+            ix.sections().map(|s| format!("({}:{}:{}:{})", s.get_offset_line(), s.get_offset_col(), opt_hex(s.get_url()), s.get_sourcemap().map(dm_full_obs).unwrap_or("nomap".into()))).collect::<Vec<_>>().join("")),
+    }
+}
+/// key structure of a serialised map, recursively through sections: C03 ("absent, not null"; offsets; version)
+fn key_shape(v: &serde_json::Value, text_order: &str) -> String {
+    let o = match v.as_object() { Some(o) => o, None => return "notobject".into() };
+    // an index map's own object is written with `"sources":null` (no skip flag on that field); C03 speaks about the five optional keys and
+    // about the embedded maps, so that one is shown but not counted as a null
+    let is_index = o.contains_key("sections");
+    let mut keys: Vec<String> = o.iter().map(|(k, val)| format!("{}{}", k, if val.is_null() { if is_index && k == "sources" { "~null" } else { ":null" } } else { "" })).collect(); keys.sort();
+    let ver = o.get("version").map(|x| x.to_string()).unwrap_or("-".into());
+    let secs = o.get("sections").and_then(|s| s.as_array()).map(|a| a.iter().map(|sec| format!("<{}:{}:{}>", sec["offset"]["line"], sec["offset"]["column"], sec.get("map").map(|m| key_shape(m, text_order)).unwrap_or("nomap".into()))).collect::<Vec<_>>().join("")).unwrap_or_default();
+    format!("{{v={} {}{}}}", ver, keys.join(","), secs)
+}
+fn gen_hermes_doc(r: &mut Rng) -> Vec<u8> {
+    // a regular map written by the crate + well-formed function maps rendered by the harness
+    let sm = gen_map(r, false); let nsrc = sm.get_source_count() as usize;
+    let mut doc: serde_json::Value = { let mut out = vec![]; sm.to_writer(&mut out).unwrap(); serde_json::from_slice(&out).unwrap() };
+    let mut fb = vec![];
+    for _ in 0..nsrc {
+        if r.below(5) == 0 { fb.push(serde_json::Value::Null); continue; }
+        let nn = 1 + r.below(3) as usize; let names: Vec<String> = (0..nn).map(|x| format!("f{}", x)).collect();
+        let mut s = String::new(); let (mut pl, mut pn, mut pc) = (1i64, 0i64, 0i64); let (mut l, mut c) = (1i64, 0i64);
+        for e in 0..(1 + r.below(5)) { if e > 0 { s.push(','); c += 1 + r.below(4) as i64; if r.below(3) == 0 { l += 1; } }
+            let n = r.below(nn as u64) as i64; own_vlq(c - pc, &mut s); pc = c; own_vlq(n - pn, &mut s); pn = n; own_vlq(l - pl, &mut s); pl = l; }
+        fb.push(serde_json::json!([{"names": names, "mappings": s}]));
+    }
+    doc.as_object_mut().unwrap().insert("x_facebook_sources".into(), serde_json::Value::Array(fb));
+    serde_json::to_vec(&doc).unwrap()
+}
+fn gen_index(r: &mut Rng, depth: u32) -> sourcemap::SourceMapIndex {
+    let nsec = 1 + r.below(3); let mut off = (r.below(3) as u32, r.below(5) as u32); let mut secs = vec![];
+    for _ in 0..nsec {
+        let inner = match r.below(if depth > 0 { 6 } else { 4 }) {
+            0 => sourcemap::decode_slice(&gen_hermes_doc(r)).ok(),
+            4 | 5 => Some(sourcemap::DecodedMap::Index(gen_index(r, depth - 1))),
+            _ => Some(sourcemap::DecodedMap::Regular(gen_map(r, false))) };
+        let url = if r.below(4) == 0 { Some("http://x/s.map".to_string()) } else { None };
+        secs.push(sourcemap::SourceMapSection::new(off, url, inner));
+        off = (off.0 + 100 + r.below(3) as u32, r.below(5) as u32);
+    }
+    sourcemap::SourceMapIndex::new(if r.below(2) == 0 { Some("bundle.js".into()) } else { None }, secs)
+}
+fn run_roundtrip(r: &mut Rng, n: u64) {
+    for i in 0..n {
+        let kind = ["regular", "regular", "index", "hermes"][r.below(4) as usize];
+        let res = catch_unwind(AssertUnwindSafe(|| {
+            let dm: sourcemap::DecodedMap = match kind {
+                "regular" => { let mut sm = gen_map(r, false); if r.below(3) == 0 { sm.set_debug_id(Some("00000000-0000-0000-0000-000000000007".parse().unwrap())); } sourcemap::DecodedMap::Regular(sm) }
+                "index" => sourcemap::DecodedMap::Index(gen_index(r, 2)),
+                _ => sourcemap::decode_slice(&gen_hermes_doc(r)).unwrap() };
+            let small = |d: &sourcemap::DecodedMap| -> bool { match d { sourcemap::DecodedMap::Regular(m) => m.tokens().all(|t| t.get_dst_line() < 100_000), sourcemap::DecodedMap::Hermes(m) => m.tokens().all(|t| t.get_dst_line() < 100_000), _ => true } };
+            fn all_small(d: &sourcemap::DecodedMap, small: &dyn Fn(&sourcemap::DecodedMap) -> bool) -> bool { match d { sourcemap::DecodedMap::Index(ix) => ix.sections().all(|s| s.get_sourcemap().map(|m| all_small(m, small)).unwrap_or(true)), m => small(m) } }
+            if !all_small(&dm, &small) { return None; }
+            let before = dm_full_obs(&dm);
+            let mut out1 = vec![]; dm.to_writer(&mut out1).unwrap();
+            let detected = sourcemap::is_sourcemap_slice(&out1);
+            let v: serde_json::Value = serde_json::from_slice(&out1).unwrap(); let shape = key_shape(&v, "");
+            let (after, idem) = match sourcemap::decode_slice(&out1) {
+                Ok(dm2) => { let mut out2 = vec![]; dm2.to_writer(&mut out2).unwrap();
+                    let idem = match sourcemap::decode_slice(&out2) { Ok(dm3) => { let mut out3 = vec![]; dm3.to_writer(&mut out3).unwrap(); if out2 == out3 { "1".to_string() } else { "0".to_string() } } Err(e) => format!("err {}", err_name(&e)) };
+                    (dm_full_obs(&dm2), idem) }
+                Err(e) => (format!("err {}", err_name(&e)), "-".into()) };
+            // the model's view of the same map (regular maps only)
+            let model_io = match &dm { sourcemap::DecodedMap::Regular(sm) => { let back = sourcemap::SourceMap::from_slice(&out1).ok(); format!("{}\t{}\t{}", map_in(sm), sm.get_debug_id().is_some() as u8, back.map(|b| map_obs(&b)).unwrap_or("err".into())) } _ => "-\t0\t-".into() };
+            Some((before, after, idem, detected, shape, model_io))
+        }));
+        match res {
+            Ok(Some((before, after, idem, detected, shape, model_io))) => println!("t{}\troundtrip\t{}\t{}\t{}\t{}\t{}\t{}\t{}", i, kind, before, after, idem, detected as u8, shape, model_io),
+            Ok(None) => {}
+            Err(_) => println!("t{}\troundtrip\t{}\tpanic\tpanic\t-\t0\t-\t-\t0\t-", i, kind),
+        }
+    }
+}
+
 // ---- C04: tokens are ordered whatever the construction order ----
 fn run_order(r: &mut Rng, n: u64) {
     for i in 0..n {
@@ -662,6 +760,7 @@ fn main() {
         "codec" => run_codec(&mut r, n, false),
         "codec_ranges" => run_codec(&mut r, n, true),
         "keys" => run_keys(&mut r, n),
+        "roundtrip" => run_roundtrip(&mut r, n),
         "lookup" => run_lookup(&mut r, n),
         "order" => run_order(&mut r, n),
         "rel" => run_rel(&mut r, n),
